@@ -85,6 +85,10 @@ type XSheet struct {
 	Dimension bool // write <dimension ref=…/>
 	Spans     bool // write spans= on rows
 	Missing   bool // declared in the workbook, but the part itself is not written (unreadable part)
+	// OmitRowR leaves out the optional r attribute of <row> (§18.3.1.73; the
+	// row index is then one more than the previous row's). Only legal when
+	// RowOrder is 0,1,2,… without gaps; the cells keep their references.
+	OmitRowR bool
 }
 
 // XWorkbook is a whole package.
@@ -344,7 +348,11 @@ func xSheetXML(s *XSheet, sstIndex map[*XCell]int) []byte {
 	sb.WriteString(`<sheetData>`)
 	for _, rowNo := range order {
 		cells := byRow[rowNo]
-		fmt.Fprintf(&sb, `<row r="%d"`, rowNo+1)
+		if s.OmitRowR {
+			sb.WriteString(`<row`)
+		} else {
+			fmt.Fprintf(&sb, `<row r="%d"`, rowNo+1)
+		}
 		if s.Spans && len(cells) > 0 {
 			lo, hi := cells[0].Col, cells[0].Col
 			for _, c := range cells {
